@@ -452,6 +452,10 @@ static HOOK_INSTALLED: Mutex<bool> = Mutex::new(false);
 /// Last panic of any thread (panics on pool threads are re-raised by rayon on the caller
 /// without their location).
 static LAST_PANIC_ANY: Mutex<Option<(String, String)>> = Mutex::new(None);
+/// Panic location inside yamaquasi's own sources -> innermost yamaquasi function. A source
+/// line belongs to exactly one function, so the (expensive, globally serialised) backtrace
+/// is taken once per location; panics raised inside a dependency are always re-attributed.
+static SITE_CACHE: Mutex<BTreeMap<(String, u32, u32), String>> = Mutex::new(BTreeMap::new());
 
 pub fn install_panic_hook() {
     let mut g = HOOK_INSTALLED.lock().unwrap();
@@ -476,7 +480,16 @@ pub fn install_panic_hook() {
         // a dependency (bnum overflow checks, slice indexing in core) is attributed to its caller.
         let line = info.location().map(|l| l.line()).unwrap_or(0);
         let file = loc.rsplit_once(':').map(|x| x.0.to_string()).unwrap_or(loc.clone());
-        let caller = {
+        let col = info.location().map(|l| l.column()).unwrap_or(0);
+        let own_source = file.starts_with("src/");
+        let cached = if own_source {
+            SITE_CACHE.lock().ok().and_then(|g| g.get(&(file.clone(), line, col)).cloned())
+        } else {
+            None
+        };
+        let caller = if let Some(c) = cached {
+            c
+        } else {
             let bt = std::backtrace::Backtrace::force_capture().to_string();
             let mut caller = "?".to_string();
             for l in bt.lines() {
@@ -492,6 +505,11 @@ pub fn install_panic_hook() {
                         caller = name.replace(' ', "");
                         break;
                     }
+                }
+            }
+            if own_source && caller != "?" {
+                if let Ok(mut g) = SITE_CACHE.lock() {
+                    g.insert((file.clone(), line, col), caller.clone());
                 }
             }
             caller
